@@ -40,7 +40,8 @@ CLAIMED.update({
            'symbolic pairing (NumPy advanced indexing) at the three list classes; Content::getitem_next for an ellipsis / newaxis followed by any mix of integer, range, index-array (1-d, 2-d) and newaxis items on a node '
            'of symbolic depth range (the ellipsis is consumed exactly when the items account for every dimension below; refused for branches of different depth); Content::getitem_next(SliceMissing64) '
            '(index array with None: None exactly where the index is negative, the right item of every row elsewhere); carry of seven node classes; NumpyArray::getitem on strided views.',
-           'Kernel, kernel-pipeline and single-node method level: the entry Content::getitem wrapper, toslice() (pybind11), field items, jagged slices at the C++ level (kernels only) and slices with several index arrays '
+           'The entry point Content::getitem(Slice) with one item (integer, range of any step sign, index array) on an opaque array of 0..4 entries. '
+           'Kernel, kernel-pipeline and single-node method level: toslice() (pybind11), field items inside tuples, jagged slices at the C++ level (kernels only) and slices with several index arrays '
            'beyond two are outside this claim. Trusted: IR encoder, z3, the CPython slice model in hlib.py.', 'DESIGN.md sections 3 (C01) and 9.5', 'SMT bounded model checking of kernel and C++ method LLVM IR (llbmc + z3; node-method harness with an opaque content) against independent oracles; native replay (ASan kernels, whole-library akrun)'),
  'C03': mc('Bounded model checking of every leaf reducer specialization (fold per group with identity, first extremum for arg-reducers, '
            'wrap-around in the output type, float kernels same order/precision) and of the local and non-local branches of '
